@@ -233,52 +233,57 @@ theorem penalty_nonneg (pit pif p thr low : Rat) (hp : 0 ≤ p) (hl : 0 ≤ low)
 
 /-! ## centre of the trust region: the scan of `set_best_index` -/
 
-/-- every merit value in `ms` is at least the current best one, up to one tolerance per tolerance switch -/
-def VisitedOk (tol : Rat) (ms : List Rat) (s : Scan Rat) : Prop :=
-  ∀ x ∈ ms, s.m ≤ x + s.tolSwitches * tol
+/-- every merit value in `ms` is at least the current best one, up to the tolerances the switches in favour of a
+smaller violation have used; each of them was the tolerance of the merit that was best at that moment (`T` bounds them) -/
+def VisitedOk (T : Rat) (ms : List Rat) (s : Scan Rat) : Prop :=
+  (∀ x ∈ ms, s.m ≤ x + s.slack) ∧ 0 ≤ s.slack ∧ s.slack ≤ s.tolSwitches * T
 
-theorem scanStep_inv (tol : Rat) (ht : 0 ≤ tol) (b0 : Nat) (s : Scan Rat) (k : Nat) (mk rk : Rat) (ms : List Rat)
-    (h : VisitedOk tol ms s) :
-    VisitedOk tol (if k = b0 then ms else mk :: ms) (scanStep tol b0 s k mk rk) ∧
-    s.tolSwitches ≤ (scanStep tol b0 s k mk rk).tolSwitches := by
+theorem scanStep_inv (tolOf : Rat → Rat) (T : Rat) (ht : ∀ m, 0 ≤ tolOf m) (b0 : Nat) (s : Scan Rat) (k : Nat) (mk rk : Rat)
+    (ms : List Rat) (hT : s.tol ≤ T) (hs : s.tol = tolOf s.m) (hTk : tolOf mk ≤ T) (h : VisitedOk T ms s) :
+    VisitedOk T (if k = b0 then ms else mk :: ms) (scanStep tolOf b0 s k mk rk) ∧
+    (scanStep tolOf b0 s k mk rk).tol ≤ T ∧ (scanStep tolOf b0 s k mk rk).tol = tolOf (scanStep tolOf b0 s k mk rk).m := by
   unfold scanStep
+  obtain ⟨h1, h2, h3⟩ := h
+  have hst : 0 ≤ s.tol := hs ▸ ht s.m
   by_cases hk : k = b0
-  · simp only [hk, if_true]; exact ⟨h, le_refl _⟩
+  · simp only [hk, if_true]; exact ⟨⟨h1, h2, h3⟩, hT, hs⟩
   · simp only [hk, if_false, rat_lt, rat_add, Bool.and_eq_true, decide_eq_true_eq]
-    have hsw : (0 : Rat) ≤ s.tolSwitches * tol := mul_nonneg (Nat.cast_nonneg _) ht
     split
     · rename_i hlt
-      refine ⟨?_, le_refl _⟩
+      refine ⟨⟨?_, h2, h3⟩, hTk, rfl⟩
       intro x hx
       rcases List.mem_cons.mp hx with rfl | hx
       · simp only; linarith
-      · have := h x hx; simp only; linarith
+      · have := h1 x hx; simp only; linarith
     · split
       · rename_i hnlt htol
-        refine ⟨?_, Nat.le_succ _⟩
-        intro x hx
-        simp only [Nat.cast_add, Nat.cast_one]
-        rcases List.mem_cons.mp hx with rfl | hx
-        · nlinarith
-        · have := h x hx; nlinarith [htol.1]
+        refine ⟨⟨?_, ?_, ?_⟩, hTk, rfl⟩
+        · intro x hx
+          simp only
+          rcases List.mem_cons.mp hx with rfl | hx
+          · linarith
+          · have := h1 x hx; linarith [htol.1]
+        · simp only; linarith
+        · simp only [Nat.cast_add, Nat.cast_one]; linarith
       · rename_i hnlt _
-        refine ⟨?_, le_refl _⟩
+        refine ⟨⟨?_, h2, h3⟩, hT, hs⟩
         intro x hx
         rcases List.mem_cons.mp hx with rfl | hx
         · have : s.m ≤ x := not_lt.mp hnlt
           linarith
-        · exact h x hx
+        · exact h1 x hx
 
-theorem scan_fold_inv (tol : Rat) (ht : 0 ≤ tol) (b0 : Nat) (l : List ((Rat × Rat) × Nat)) (s : Scan Rat)
-    (ms : List Rat) (h : VisitedOk tol ms s) :
-    ∃ ms', VisitedOk tol ms' (l.foldl (fun s (p, k) => scanStep tol b0 s k p.1 p.2) s) ∧
+theorem scan_fold_inv (tolOf : Rat → Rat) (T : Rat) (ht : ∀ m, 0 ≤ tolOf m) (b0 : Nat) (l : List ((Rat × Rat) × Nat))
+    (hl : ∀ pk ∈ l, tolOf pk.1.1 ≤ T) (s : Scan Rat)
+    (ms : List Rat) (hT : s.tol ≤ T) (hs : s.tol = tolOf s.m) (h : VisitedOk T ms s) :
+    ∃ ms', VisitedOk T ms' (l.foldl (fun s (p, k) => scanStep tolOf b0 s k p.1 p.2) s) ∧
       (∀ x ∈ ms, x ∈ ms') ∧ (∀ pk ∈ l, pk.2 ≠ b0 → pk.1.1 ∈ ms') := by
   induction l generalizing s ms with
   | nil => exact ⟨ms, h, fun x hx => hx, by simp⟩
   | cons pk t ih =>
     simp only [List.foldl_cons]
-    obtain ⟨h1, _⟩ := scanStep_inv tol ht b0 s pk.2 pk.1.1 pk.1.2 ms h
-    obtain ⟨ms', a, b, c⟩ := ih _ _ h1
+    obtain ⟨h1, h2, h3⟩ := scanStep_inv tolOf T ht b0 s pk.2 pk.1.1 pk.1.2 ms hT hs (hl pk (List.mem_cons_self)) h
+    obtain ⟨ms', a, b, c⟩ := ih (fun q hq => hl q (List.mem_cons_of_mem _ hq)) _ _ h2 h3 h1
     refine ⟨ms', a, ?_, ?_⟩
     · intro x hx; apply b; split
       · exact hx
@@ -288,22 +293,46 @@ theorem scan_fold_inv (tol : Rat) (ht : 0 ≤ tol) (b0 : Nat) (l : List ((Rat ×
       · apply b; simp [hne]
       · exact c q hq hne
 
-/-- **The centre has the least merit value**, up to one (tiny) tolerance per switch made in favour of a
-smaller violation: after `set_best_index` the merit of the chosen point is at most that of the
-previous centre and of every interpolation point, plus `tolSwitches * tol`. -/
-theorem best_is_least_merit (tol : Rat) (ht : 0 ≤ tol) (b0 : Nat) (pts : List (Rat × Rat)) (m0 r0 : Rat) :
-    let S := setBestIndex tol b0 pts m0 r0
-    S.m ≤ m0 + S.tolSwitches * tol ∧
-    ∀ k (h : k < pts.length), k ≠ b0 → S.m ≤ (pts[k]).1 + S.tolSwitches * tol := by
+/-- **The centre has the least merit value**, up to the rounding tolerances of the switches made in favour of a
+smaller violation: after `set_best_index` the merit of the chosen point is at most that of the previous centre and of
+every interpolation point plus `slack`, and `slack` is at most one tolerance `T` per such switch, where `T` bounds the
+tolerance `10 eps max(n, npt) max(|m|, 1)` of every merit value `m` IN THE SET (the tolerance is that of the current
+best point, not of the point that was best on entry). -/
+theorem best_is_least_merit (tolOf : Rat → Rat) (T : Rat) (ht : ∀ m, 0 ≤ tolOf m) (b0 : Nat) (pts : List (Rat × Rat))
+    (m0 r0 : Rat) (hT0 : tolOf m0 ≤ T) (hTp : ∀ p ∈ pts, tolOf p.1 ≤ T) :
+    let S := setBestIndex tolOf b0 pts m0 r0
+    S.m ≤ m0 + S.slack ∧
+    (∀ k (h : k < pts.length), k ≠ b0 → S.m ≤ (pts[k]).1 + S.slack) ∧
+    0 ≤ S.slack ∧ S.slack ≤ S.tolSwitches * T := by
   intro S
-  have h0 : VisitedOk tol [m0] ⟨b0, m0, r0, 0⟩ := by
-    intro x hx; simp at hx; subst hx; simp
-  obtain ⟨ms', a, b, c⟩ := scan_fold_inv tol ht b0 pts.zipIdx ⟨b0, m0, r0, 0⟩ [m0] h0
-  refine ⟨a m0 (b m0 (by simp)), ?_⟩
+  have h0 : VisitedOk T [m0] ⟨b0, m0, r0, tolOf m0, 0, (Arith.ofNat 0 : Rat)⟩ := by
+    have e : (Arith.ofNat 0 : Rat) = 0 := by decide +kernel
+    refine ⟨?_, ?_, ?_⟩
+    · intro x hx; simp at hx; subst hx; simp [e]
+    · simp [e]
+    · simp [e]
+  have hl : ∀ pk ∈ pts.zipIdx, tolOf pk.1.1 ≤ T := by
+    intro pk hpk
+    have : pk.1 ∈ pts := by
+      have := List.mem_zipIdx hpk
+      rcases pk with ⟨p, k⟩
+      simp only at this ⊢
+      rw [this.2.2]; exact List.getElem_mem _
+    exact hTp _ this
+  obtain ⟨ms', a, b, c⟩ := scan_fold_inv tolOf T ht b0 pts.zipIdx hl ⟨b0, m0, r0, tolOf m0, 0, (Arith.ofNat 0 : Rat)⟩ [m0] hT0 rfl h0
+  refine ⟨a.1 m0 (b m0 (by simp)), ?_, a.2.1, a.2.2⟩
   intro k hk hne
   have hmem : (pts[k], k) ∈ pts.zipIdx := by
     rw [List.mem_zipIdx_iff_getElem?]; simp [hk]
-  exact a _ (c _ hmem hne)
+  exact a.1 _ (c _ hmem hne)
+
+/-- the defect repaired in 6692aa8, as a fact about the OLD rule (tolerance fixed on entry): with the barrier value as
+the merit of the previous centre, a point of merit 2.64 is preferred to a point of merit 1.47 -/
+example :
+    let tol0 : Rat := 8 * 10 ^ 15
+    let old : Scan Rat := [(((147 : Rat) / 100, (77 : Rat) / 100), 1), (((264 : Rat) / 100, (13 : Rat) / 100), 2)].foldl
+      (fun s (p, k) => scanStep (fun _ => tol0) 0 s k p.1 p.2) ⟨0, 2 ^ 100, 264 / 100, tol0, 0, 0⟩
+    old.best = 2 := by decide +kernel
 
 /-! ## the point to remove is never the centre -/
 
